@@ -16,6 +16,8 @@ def main():
         req = json.loads(sys.stdin.read())
     real_out = sys.stdout
     sys.stdout = sys.stderr
+    from vf import tmpclean
+    tmpclean.install()
     mod = importlib.import_module(req["module"])
     try:
         res = mod.replay(req["harness"], dict(req["params"]), req["model"])
